@@ -45,7 +45,7 @@ pub fn run_units(ex: &Explorer, units: Vec<Unit>) {
                     let r = std::panic::catch_unwind(std::panic::AssertUnwindSafe(|| units[i](&mut acc)));
                     if r.is_err() {
                         let mut m = ex.stats.machinery_error.lock().unwrap();
-                        if m.is_none() { *m = Some(format!("sweep unit {} panicked outside the guarded subject call", i)); }
+                        if m.is_none() { *m = Some(format!("sweep unit {} panicked outside the guarded subject call: {}", i, crate::explore::take_panic_info().unwrap_or_default())); }
                     }
                     merged.lock().unwrap().push(acc);
                     if ex.t0.elapsed().as_secs_f64() > ex.deadline_s { ex.stats.capped.store(true, Ordering::Relaxed); ex.stats.stop.store(true, Ordering::Relaxed); }
